@@ -259,7 +259,21 @@ pub fn pattern(rng: &mut Rng, m: usize, alpha: &[u8], shape: u64) -> Vec<u8> {
     }
 }
 
+/// The text handed over as an iterator: plain slice iterator (exact size hint) or through
+/// filter / flat_map / take_while (inexact size hints); the items are the same.
+pub fn text_iter<'a>(t: &'a [u8], via: u64) -> Box<dyn Iterator<Item = &'a u8> + 'a> {
+    match via % 4 {
+        0 => Box::new(t.iter()),
+        1 => Box::new(t.iter().filter(|_| true)),
+        2 => Box::new(t.iter().flat_map(std::iter::once)),
+        _ => Box::new(t.iter().take_while(|_| true)),
+    }
+}
+pub const VIA: [&str; 4] = ["slice_iter", "filter", "flat_map", "take_while"];
+pub const HOWS: [&str; 6] = ["count", "last", "nth", "skip", "step_by", "size_hint"];
+
 /// A Myers matcher of either implementation and any supported word type.
+#[derive(Clone)]
 pub enum Mx {
     S8(Myers<u8>),
     S16(Myers<u16>),
@@ -269,6 +283,73 @@ pub enum Mx {
     L16(long::Myers<u16>),
     L32(long::Myers<u32>),
     L64(long::Myers<u64>),
+}
+
+impl Mx {
+    /// index of the variant (objects of the same variant can be the target of clone_from)
+    pub fn variant(&self) -> usize {
+        match self {
+            Mx::S8(_) => 0,
+            Mx::S16(_) => 1,
+            Mx::S32(_) => 2,
+            Mx::S64(_) => 3,
+            Mx::L8(_) => 4,
+            Mx::L16(_) => 5,
+            Mx::L32(_) => 6,
+            Mx::L64(_) => 7,
+        }
+    }
+    /// `Clone::clone_from` of the matcher itself (into a used object, generally of another pattern)
+    pub fn clone_from_same(&mut self, src: &Mx) -> bool {
+        match (self, src) {
+            (Mx::S8(a), Mx::S8(b)) => a.clone_from(b),
+            (Mx::S16(a), Mx::S16(b)) => a.clone_from(b),
+            (Mx::S32(a), Mx::S32(b)) => a.clone_from(b),
+            (Mx::S64(a), Mx::S64(b)) => a.clone_from(b),
+            (Mx::L8(a), Mx::L8(b)) => a.clone_from(b),
+            (Mx::L16(a), Mx::L16(b)) => a.clone_from(b),
+            (Mx::L32(a), Mx::L32(b)) => a.clone_from(b),
+            (Mx::L64(a), Mx::L64(b)) => a.clone_from(b),
+            _ => return false,
+        }
+        true
+    }
+    pub fn debug_len(&self) -> usize {
+        match self {
+            Mx::S8(a) => format!("{:?}", a).len(),
+            Mx::S16(a) => format!("{:?}", a).len(),
+            Mx::S32(a) => format!("{:?}", a).len(),
+            Mx::S64(a) => format!("{:?}", a).len(),
+            Mx::L8(a) => format!("{:?}", a).len(),
+            Mx::L16(a) => format!("{:?}", a).len(),
+            Mx::L32(a) => format!("{:?}", a).len(),
+            Mx::L64(a) => format!("{:?}", a).len(),
+        }
+    }
+}
+
+thread_local! {
+    /// used matcher objects left over from earlier runs of this driver process, one per variant:
+    /// targets of `clone_from`
+    pub static ATTIC: std::cell::RefCell<Vec<Option<Mx>>> = std::cell::RefCell::new(vec![None, None, None, None, None, None, None, None]);
+}
+pub fn attic_has(variant: usize) -> bool {
+    ATTIC.with(|a| a.borrow()[variant].is_some())
+}
+pub fn attic_take(variant: usize) -> Option<Mx> {
+    ATTIC.with(|a| a.borrow_mut()[variant].take())
+}
+pub fn attic_put(mx: Mx) {
+    let v = mx.variant();
+    ATTIC.with(|a| a.borrow_mut()[v] = Some(mx));
+}
+pub fn variant_of(long_impl: bool, w: usize) -> usize {
+    (if long_impl { 4 } else { 0 }) + match w {
+        8 => 0,
+        16 => 1,
+        32 => 2,
+        _ => 3,
+    }
 }
 
 pub fn build(long_impl: bool, w: usize, p: &[u8], tb: &Tables) -> Mx {
@@ -331,6 +412,15 @@ impl BuilderHistory {
     pub fn wildcard(&mut self, w: u8) {
         self.builder.text_wildcard(w);
         self.calls.wild.push(w);
+    }
+    /// the builder object copied in the middle of its history
+    pub fn fork_clone(&self) -> BuilderHistory {
+        BuilderHistory { builder: self.builder.clone(), calls: self.calls.clone() }
+    }
+    /// ... or sent through serde_json and back
+    pub fn fork_serde(&self) -> BuilderHistory {
+        let txt = serde_json::to_string(&self.builder).expect("MyersBuilder serializes");
+        BuilderHistory { builder: serde_json::from_str(&txt).expect("MyersBuilder deserializes"), calls: self.calls.clone() }
     }
 }
 
